@@ -122,27 +122,28 @@ def spec_chain(builder, t, canonical: bool, opaque: bool, couplings: bool):
 
 
 def identical_permutations(t):
-    """All distinct re-assignments of the final-state (particle, projection) states among edges carrying the same particle."""
+    """Symmetrisation over identical final-state particles: every exchange of the POSITIONS of identical particles in the decay
+    tree, i.e. every relabelling of final-state edge ids among edges that carry the same particle (the states move with their
+    edges); graphs that coincide (same topology and same states) are counted once."""
     import attrs
 
     fs = sorted(t.topology.outgoing_edge_ids)
     by_name: dict[str, list[int]] = {}
     for i in fs:
         by_name.setdefault(t.states[i].particle.name, []).append(i)
-    groups = [ids for ids in by_name.values()]
+    groups = list(by_name.values())
     seen, out = set(), []
     for perms in itertools.product(*[itertools.permutations(ids) for ids in groups]):
         mapping = {}
         for ids, perm in zip(groups, perms):
             mapping.update(dict(zip(ids, perm)))
-        states = dict(t.states)
-        for i in fs:
-            states[i] = t.states[mapping[i]]
-        key = tuple((i, states[i].particle.name, float(states[i].spin_projection)) for i in sorted(states))
+        top = t.topology.relabel_edges(mapping) if any(k != v for k, v in mapping.items()) else t.topology
+        states = {mapping.get(i, i): s for i, s in t.states.items()}
+        key = (top, tuple((i, states[i].particle.name, float(states[i].spin_projection)) for i in sorted(states)))
         if key in seen:
             continue
         seen.add(key)
-        out.append(attrs.evolve(t, states=states))
+        out.append(attrs.evolve(t, topology=top, states=states))
     return out
 
 
@@ -245,8 +246,11 @@ def check_model(chk: Check, name: str, formalism: str, couplings=False, opaque=F
                 if abs(va - vb) > 1e-9 * (1 + abs(vb)):
                     return {"reproduced": True, "input": {"model": tag, "amplitude": str(sym), "point": point}, "observed": str(va), "expected": str(vb),
                             "model_definition": str(got)[:400], "spec": str(want)[:400]}
+        by_name: dict = {}
         for g, term in chains:
-            cname = f"A_{{{b.naming.generate_amplitude_name(g)}}}"
+            by_name.setdefault(f"A_{{{b.naming.generate_amplitude_name(g)}}}", []).append(term)
+        for cname, terms in by_name.items():
+            term = sp.Add(*terms)
             got = model.components.get(cname)
             if got is None or not same(got, term):
                 if got is None:
@@ -300,8 +304,11 @@ def check_model(chk: Check, name: str, formalism: str, couplings=False, opaque=F
     # (3) components
     bad = []
     names = set()
-    for g, term in chains:
-        cname = f"A_{{{b.naming.generate_amplitude_name(g)}}}"
+    by_name: dict = {}
+    for g, term in chains:  # symmetrised chains of identical particles share one name: the component is their sum
+        by_name.setdefault(f"A_{{{b.naming.generate_amplitude_name(g)}}}", []).append(term)
+    for cname, terms in by_name.items():
+        term = sp.Add(*terms)
         names.add(cname)
         got = model.components.get(cname)
         if got is None or not same(got, term):
@@ -369,7 +376,7 @@ def build(chk: Check) -> None:
     chk.assume("SymPy's automatic flattening and ordering of Add/Mul preserves values (AC-normalisation)")
     chk.assume("symbol names come from ampform's naming functions; their meaning is C07's, coefficient sharing / parity sign C03's")
     chk.trust("z3 5.1.0 / cvc5 unsat answers; SymPy Rotation.d(...).doit() (its orthogonality is checked in C05)")
-    names = ["jpsi_gamma_pi0_pi0", "jpsi_pi0_pip_pim", "d1_k_k_k0", "jpsi_sigmabar_sigma", "etac_lambda_lambdabar", "jpsi_p_pbar", "jpsi_k0_sigma_pbar_N", "lambdac_p_k_pi"]
+    names = ["jpsi_gamma_pi0_pi0", "jpsi_pi0_pip_pim", "d1_k_k_k0", "jpsi_sigmabar_sigma", "etac_lambda_lambdabar", "jpsi_p_pbar", "jpsi_k0_sigma_pbar_N", "lambdac_p_k_pi", "jpsi_kk_pipi", "d0_k_3pi_cascade", "jpsi_gamma_pi0_pi0_f2", "d0_k_pi_pi0"]
     if chk.tier == "quick":
         plan = [(n, f, c) for n in names for f in ("helicity", "canonical-helicity") for c in (CONFIGS_QUICK if n in names[:4] else CONFIGS_QUICK[:3])]
     else:
